@@ -27,7 +27,7 @@ import hashlib
 import os
 import re
 
-from .rsparse import ExtractError, extract_fn, mask, match_close, norm_ws
+from .rsparse import ExtractError, extract_fn, extract_region, mask, match_close, norm_ws
 
 FLAVOURS = {
     "dg": dict(dir="digraph", sync=False, directed=True),
@@ -76,6 +76,8 @@ class FnBlock:
         self.nolabel = False
         self.novac = False
         self.trait_impl = False
+        self.region = None
+        self.regionsig = None
 
 
 def preprocess(path, flavour, subst=None):
@@ -122,6 +124,18 @@ def parse_template(lines, flavour):
     for line, origin in lines:
         s = line.strip()
         if cur is None:
+            if s.startswith("//@region "):
+                if buf:
+                    items.append(("text", buf))
+                    buf = []
+                m = re.match(r"//@region\s+(\S+)\s*<-\s*(\S+)\s*::\s*(\w+)\s*::\s*`(.*?)`\s*\.\.\s*`(.*?)`\s*$", s)
+                if not m:
+                    raise ExtractError("bad //@region line at %s: %s" % (origin, s))
+                cur = FnBlock(m.group(1), m.group(2).replace("{FL}", fl["dir"]), "", m.group(1).split("::")[-1])
+                cur.region = (m.group(3), m.group(4), m.group(5))
+                cur.origin = origin
+                sink = None
+                continue
             if s.startswith("//@fn "):
                 if buf:
                     items.append(("text", buf))
@@ -160,6 +174,8 @@ def parse_template(lines, flavour):
             if not m:
                 raise ExtractError("bad rewrite at %s" % origin)
             cur.rewrites.append(("sig" if m.group(1) else "all", m.group(3), m.group(4), {"": False, "?": True, "-all": "all"}[m.group(2)]))
+        elif s.startswith("//@regionsig "):
+            cur.regionsig = s[len("//@regionsig "):]
         elif s == "//@spec":
             sink = cur.spec
         elif s.startswith("//@loop "):
@@ -476,6 +492,27 @@ def apply_R15(body, stats):
     return body
 
 
+def apply_R7b(body, stats):
+    """`.ok_or_else(|| { de::Error::custom(format!(..)) })` -> `.ok_or_else(|| -> (e: ErrMsg) { err_msg() })`:
+    error payloads built with format! are replaced by an opaque message (string formatting is out of reach)."""
+    while True:
+        m = mask(body)
+        mm = re.search(r"\.\s*ok_or_else\s*\(", m)
+        found = None
+        for mm in re.finditer(r"\.\s*ok_or_else\s*\(", m):
+            op = mm.end() - 1
+            cl = match_close(m, op)
+            inner = body[op + 1:cl]
+            if "format!" in inner and "err_msg()" not in inner:
+                found = (op, cl)
+                break
+        if not found:
+            return body
+        op, cl = found
+        body = body[:op + 1] + "|| -> (e: ErrMsg) { err_msg() }" + body[cl:]
+        stats["R7b"] = stats.get("R7b", 0) + 1
+
+
 def find_loops(m):
     """offsets of loop keywords in text order with their header end ('{')"""
     res = []
@@ -580,8 +617,9 @@ def rewrite_sig(sig, blk, heap_param):
     if where:
         # R2: the Display bound is dropped
         w = norm_ws(where)
-        w = re.sub(r"\+\s*Display\b", "", w)
-        w = re.sub(r"\bDisplay\s*\+\s*", "", w)
+        for bound in ("Display", "Serialize"):
+            w = re.sub(r"\+\s*%s\b" % bound, "", w)
+            w = re.sub(r"\b%s\s*\+\s*" % bound, "", w)
         out += "\n    " + norm_ws(w)
     return out
 
@@ -619,7 +657,12 @@ def generate(template_path, flavour, repo="/repo", vacuity=False, rules=None):
         if not os.path.exists(path):
             raise ExtractError("missing file %s" % b.file)
         src = open(path).read()
-        ex = extract_fn(b.file, src, b.impl, b.name)
+        if b.region:
+            ex = extract_region(b.file, src, b.region[0], b.region[1], b.region[2])
+            stats_r11 = True
+        else:
+            ex = extract_fn(b.file, src, b.impl, b.name)
+            stats_r11 = False
         sig, body = ex["sig"], ex["body"]
         h = text_hash(sig, body)
         stats = {}
@@ -660,6 +703,7 @@ def generate(template_path, flavour, repo="/repo", vacuity=False, rules=None):
         body = apply_R5(body, stats)
         body = apply_R15(body, stats)
         body = apply_R7(body, stats)
+        body = apply_R7b(body, stats)
         guards = []
         if b.heap == "mut":
             body = apply_R9(body, stats)
@@ -724,7 +768,11 @@ def generate(template_path, flavour, repo="/repo", vacuity=False, rules=None):
             heap_param = "heap: &Heap<K, N, E>"
         elif b.heap == "mut":
             heap_param = "heap: &mut Heap<K, N, E>"
-        nsig = rewrite_sig(sig, b, heap_param)
+        if b.region:
+            nsig = b.regionsig
+            stats["R11"] = 1
+        else:
+            nsig = rewrite_sig(sig, b, heap_param)
         spec = list(b.spec)
         start = len(out) + 1
         out.append("    // ---- extracted from %s:%d-%d (%s) hash %s" % (b.file, ex["line_start"], ex["line_end"], b.id, h))
